@@ -71,7 +71,7 @@ def cfgs_random(prop, tier, rng):
                  sfn=rng.choice([1, 1, 0, 3]) if prop == 'C06' else 1, sfd=10, maxintervals=40 if D == 2 else 24,
                  max_hats=(24 if tier == 'quick' else 80) if prop == 'C04' else 6)
         if prop == 'C06':
-            c['margin'] = rng.choice([None, None, 0.5, 1.0, 0.75, 0.25])
+            c['margin'] = rng.choice([None, None, 0.5, 1.0, 0.75, 0.25, 0.0, 0.1])
         if rng.random() < 0.3:
             c['a'] = [-3.0 + d for d in range(D)]
             c['b'] = [6.0 + 2 * d for d in range(D)]
